@@ -219,7 +219,11 @@ func c19Worker(seed int64, id int, useUDP bool, concurrent bool) (transcript []s
 	dialAddr := ""
 	if useUDP {
 		var err error
-		srv, err = udpbmc.Listen(b)
+		if id%8 == 6 {
+			srv, err = udpbmc.ListenV6(b) // one BMC of the fleet is reached over IPv6
+		} else {
+			srv, err = udpbmc.Listen(b)
+		}
 		if err != nil {
 			return nil, "udp listen: " + err.Error()
 		}
